@@ -546,6 +546,41 @@ func TestSelectorRapid(t *testing.T) {
 		if err := sel3.SetServers(append(append([]string{}, perm...), last)...); err != nil {
 			rt.Fatalf("SetServers: %v", err)
 		}
+		// a long-lived selector that has been given other lists before (DNS refreshes: servers come, go and
+		// come back, in any order); the placement depends on the latest list only
+		var selH cache.MemcachedJumpHashSelector
+		nHist := rapid.IntRange(1, 4).Draw(rt, "earlierLists")
+		for h := 0; h < nHist; h++ {
+			var earlier []string
+			for _, sv := range servers {
+				if rapid.IntRange(0, 2).Draw(rt, "keep") > 0 {
+					earlier = append(earlier, sv)
+				}
+			}
+			if rapid.Bool().Draw(rt, "withOthers") {
+				have := map[string]bool{}
+				for _, sv := range earlier {
+					have[sv] = true
+				}
+				for _, sv := range genServers(rt) {
+					if !have[sv] {
+						have[sv] = true
+						earlier = append(earlier, sv)
+					}
+				}
+			}
+			if len(earlier) == 0 {
+				continue
+			}
+			earlier = rapid.Permutation(earlier).Draw(rt, "earlierOrder")
+			if err := selH.SetServers(earlier...); err != nil {
+				rt.Fatalf("SetServers(%v): %v", earlier, err)
+			}
+			vx.Class("selector_given_an_earlier_list", 1)
+		}
+		if err := selH.SetServers(perm...); err != nil {
+			rt.Fatalf("SetServers: %v", err)
+		}
 		trap := false
 		for i := 0; i+1 < len(sorted); i++ {
 			if sorted[i] > sorted[i+1] {
@@ -572,6 +607,9 @@ func TestSelectorRapid(t *testing.T) {
 			}
 			if a2.String() != a1.String() || a1b.String() != a1.String() {
 				rt.Fatalf("key %q: placement depends on the input order or on the call: %s vs %s vs %s", k, a1, a2, a1b)
+			}
+			if aH, errH := selH.PickServer(k); errH != nil || aH.String() != want {
+				rt.Fatalf("key %q: a selector that was given other server lists before picks %v (err %v), a fresh one %s\nservers=%v", k, aH, errH, want, servers)
 			}
 			a3, err3 := sel3.PickServer(k)
 			if err3 != nil {
